@@ -54,3 +54,20 @@ theorem C01_default_min_old_witness : ¬ (defaultMinOld 8 false 0 < 0) ∧ ¬ (d
 -- non-vacuity: a 6-pixel row with a three-level tree; the order is duplicate-free
 example : let E := envOf (fun p => [1, 10, 5, 9, 2, 8][p]!) (Grid.nbrs [6] []) []
     [1, 3, 5, 2, 4, 0].Nodup ∧ (pixelsL (run E [1, 3, 5, 2, 4, 0])).length = 6 := by decide
+
+/-! ## the label map as the code maintains it -/
+
+/-- **C01 (label map, imperative mechanism).** `Dendrogram.compute` does not search pixel lists: it keeps a label
+map (`index_map[coord] = idx`, `_fill_footprint` when leaves are absorbed) and finds adjacent structures by reading
+labels and following them to their root. `runL` (`ADModel/LabelMap.lean`) models exactly that; for every environment
+and duplicate-free order the label map it maintains names, for every pixel, the structure whose own list contains it
+(`none` = −1 for everything else) — the label map and the structures are two views of the same assignment. -/
+theorem C01_label_map_refines (E : Env) (order : List Nat) (hnd : order.Nodup) (q : Nat) :
+    (runL E order).lmap q = labelOf (run E order) q := P36.runL_lmap_run E order hnd q
+
+/-- a pixel is labelled iff it was processed -/
+theorem C01_label_map_domain (E : Env) (order : List Nat) (hnd : order.Nodup) (q : Nat) :
+    (q ∉ order → (runL E order).lmap q = none) ∧ (q ∈ order → ((runL E order).lmap q).isSome = true) :=
+  ⟨P36.runL_lmap_unprocessed E order hnd q, P36.runL_lmap_processed E order hnd q⟩
+
+example : (runL P36.rowEnv P36.rowOrder).roots = run P36.rowEnv P36.rowOrder := by rfl
